@@ -329,6 +329,20 @@ package crypto
 //@   loop iter0 invariant [keys] *errs == nil && (forall x hotstuff.ID :: {visited(iter0, x)} visited(iter0, x) ==> blskey(bls, x))
 //@   opt noframe true
 
+// BatchVerify (aggregate QCs): the quorum is counted from the CLAIMED participant set, the pairing
+// check covers the ids of the batch; so an accepted signature must claim exactly as many
+// participants as there are batch entries (each batch id is a distinct map key with a configured
+// public key).
+//@ func (*bls12Base).aggregateVerify
+//@   trusted duplicate-message check and pairing check of the external kilic/bls12-381 library
+//@ func (*bls12Base).BatchVerify property C02,C20
+//@   requires istype(signature, *BLS12AggregateSignature) ==> as(signature, *BLS12AggregateSignature) != nil
+//@   ensures [one-batch-entry-per-claimed-participant] result == nil ==> istype(signature, *BLS12AggregateSignature) && as(signature, *BLS12AggregateSignature).participants.len == len(batch)
+//@   ensures [every-batch-id-is-configured] result == nil ==> (forall x hotstuff.ID :: {has(batch, x)} has(batch, x) ==> blskey(bls, x))
+//@   loop 0 invariant [keys] forall x hotstuff.ID :: {visited(0, x)} visited(0, x) ==> blskey(bls, x)
+//@   loop 0 invariant [nonempty] forall x hotstuff.ID :: {visited(0, x)} visited(0, x) ==> len(pks) >= 1 && len(msgs) >= 1
+//@   opt noframe true
+
 // The participant set of a multi-signature is iterated in list order: the k-th call of the
 // callback gets the signer of the k-th entry (the signature cache pairs these ids with the
 // signature bytes, which ToBytes also emits in list order); RangeWhile stops after the first
